@@ -44,12 +44,12 @@ impl Check for C18 {
     fn phases(&self, tier: Tier, b: f64) -> Vec<Phase> {
         let q = tier == Tier::Quick;
         vec![
-            Phase { name: "valid claims sets / KDF contexts / party infos / supp-pub-infos x styles", cases: scale(if q { 12000 } else { 400000 }, b), exhaustive: false },
+            Phase { name: "valid claims sets / KDF contexts / party infos / supp-pub-infos x styles", cases: scale(if q { 60000 } else { 400000 }, b), exhaustive: false },
             Phase { name: "complete single-fault neighbourhood of fixed bases", cases: if q { 48 } else { 480 }, exhaustive: true },
-            Phase { name: "1-3 random faults", cases: scale(if q { 20000 } else { 600000 }, b), exhaustive: false },
-            Phase { name: "claim maps over the key alphabet x values of every kind; all 128 typed-claim subsets", cases: scale(if q { 20000 } else { 600000 }, b), exhaustive: false },
-            Phase { name: "arrays of arity 0-7 for the KDF context and its sub-arrays with every slot kind", cases: scale(if q { 20000 } else { 600000 }, b), exhaustive: false },
-            Phase { name: "encode side: well-formed values of the four types", cases: scale(if q { 12000 } else { 400000 }, b), exhaustive: false },
+            Phase { name: "1-3 random faults", cases: scale(if q { 100000 } else { 600000 }, b), exhaustive: false },
+            Phase { name: "claim maps over the key alphabet x values of every kind; all 128 typed-claim subsets", cases: scale(if q { 100000 } else { 600000 }, b), exhaustive: false },
+            Phase { name: "arrays of arity 0-7 for the KDF context and its sub-arrays with every slot kind", cases: scale(if q { 100000 } else { 600000 }, b), exhaustive: false },
+            Phase { name: "encode side: well-formed values of the four types", cases: scale(if q { 60000 } else { 400000 }, b), exhaustive: false },
         ]
     }
     fn run_case(&self, ctx: &mut Ctx, phase: usize, idx: u64) {
